@@ -230,6 +230,10 @@ func consumerAlphabet() []hostileItem {
 		{"stop-reading", false, func(p *env.Client) { p.BEnd.Hold = true }},
 		// ... and stays silent until the read deadline derived from its keep-alive passes
 		{"keepalive-expiry", true, func(p *env.Client) { p.BEnd.ExpireReadDeadline() }},
+		// the broker's next write to the peer fails (the read side stays silent)
+		{"next-broker-write-fails", false, func(p *env.Client) { p.BEnd.FailSend(1, env.FailBefore) }},
+		// a new connection presents the same client id while this one is still open (handled in hostile())
+		{"takeover", true, nil},
 	}
 }
 
@@ -254,7 +258,7 @@ func hostile(x *explore.X, pr c14params) {
 	if pr.Mode == "consumer" {
 		alpha = consumerAlphabet()
 	}
-	var h *env.Client
+	var h, hold *env.Client
 	var names []string
 	nmark := 0
 	connected := false
@@ -286,6 +290,20 @@ func hostile(x *explore.X, pr c14params) {
 		k := vrt.Choose(nchoices, "hostile-event")
 		name := ""
 		switch {
+		case k < len(alpha) && alpha[k].send == nil:
+			// takeover: the old connection stays open on the peer's side; the broker has to end it
+			name = alpha[k].name
+			old := h
+			dial(true)
+			limit(70000)
+			w.Run(w1, w2, h, old)
+			if !old.Closed() && !(pr.Real && old.BEnd.Hold) {
+				x.Failf("takeover-ends-old", "old-open-after-takeover after "+strings.Join(names, " ; "), "a new connection presented the hostile peer's client id but the old connection %s is still open at quiescence (newcomer answered: %v); blocked: %v", old.Name, h.Connack != nil, vrt.Blocked())
+				return
+			}
+			if pr.Real && old.BEnd.Hold {
+				hold = old // the stall check below looks at the connection whose write is blocked
+			}
 		case k < len(alpha):
 			it := alpha[k]
 			name = it.name
@@ -334,7 +352,10 @@ func hostile(x *explore.X, pr c14params) {
 		names = append(names, name)
 		w.Run(w1, w2, h)
 		w.Rec.FailHook, w.Rec.FailAt = "", 0
-		if pr.Real && h.BEnd.Hold {
+		if hold == nil && h.BEnd.Hold {
+			hold = h
+		}
+		if pr.Real && hold != nil && hold.BEnd.Hold && !hold.Closed() {
 			// over the real BaseConn: somebody waits in BaseConn.Close for the send mutex that the blocked write holds
 			// (identified by the caller of Close); the connection cannot end until the peer itself goes away
 			seen := map[string]bool{}
@@ -486,9 +507,9 @@ func runC14(r *report.Report) {
 	st := explore.Explore(explore.Config{Harness: "C14.run", Params: mk(c14params{Mode: "hostile", Len: n}), Bound: 0, Workers: report.Workers(), Deadline: r.Deadline()})
 	r.AddExploration("hostile-sequences", "history", fmt.Sprintf("all sequences of %d hostile events over %d packets/frames + reconnect + %d failing backend hooks, started cold or after a valid CONNECT, delay bound 0", n, len(hostileAlphabet()), len(hookNames)), st,
 		"one execution = one hostile sequence against a broker with two witnesses; marker exchange after every event, lifecycle clauses at the end; non-trivial = sequences completed (counted)", "hostile-sequence")
-	cl := 5
+	cl := 4
 	if r.Tier == "thorough" {
-		cl = 7
+		cl = 6
 	}
 	st = explore.Explore(explore.Config{Harness: "C14.run", Params: mk(c14params{Mode: "consumer", Len: cl}), Bound: 0, Workers: report.Workers(), Deadline: r.Deadline()})
 	r.AddExploration("hostile-consumer", "history", fmt.Sprintf("all sequences of %d events of a misbehaving consumer (subscribes to the witnesses' topic with window 1, withholds / misplaces acknowledgements, unsubscribes with messages queued, stops reading, lets its keep-alive expire, reconnects unclean), delay bound 0", cl), st,
